@@ -17,6 +17,7 @@ RULE = ('one case per (sample composition, mass, environment, exposure, rest-tim
         'distinct (sorted atoms, rest-time list, decade of target/A(0), outcome class) with at least one activated '
         'product; non-trivial = the sample has activity and the target is a positive finite number')
 EXHAUSTIVE = False
+SUITE_UNDER_CONTRACTS = True   # thorough tier: the repository's tests run with the decay_time postcondition attached
 TECHNIQUE = ('runtime monitoring: reference-model monitor (independently recomputed sum of decaying activities with '
              'half-lives from an independent reader), metamorphic relation over rest-time lists, in-process '
              'postcondition on Sample.decay_time, counting wrapper on find_root, sys.monitoring line counters')
@@ -51,7 +52,7 @@ def setup(ctx):
     from ..ref import activation_ref as R
     T = R.ActivationTable()
     _state.update(R=R, T=T, A=A, pt=pt, anomalies=[], cache=(None, None),
-                  post=dict(calls=0, returned=0, raised=0, band_checked=0),
+                  post=dict(calls=0, returned=0, raised=0, band_checked=0), suite=_suite_mode(), inject=None,
                   fr=dict(calls=0, iterations=0, exhausted=0, maxit=0))
     pt.elements[1][2].neutron_activation
     rowmap = {}
@@ -97,7 +98,10 @@ def setup(ctx):
         fr = _state['fr']
         fr['calls'] += 1
         try:
-            return orig_fr(x, f, counted_df, *args, **kw)
+            out = orig_fr(x, f, counted_df, *args, **kw)
+            if _state['inject'] is not None:
+                out = _state['inject'](out[0], f)   # acceptance probe: hand decay_time a degraded root
+            return out
         finally:
             fr['iterations'] += n[0]
             fr['maxit'] = max(fr['maxit'], n[0])
@@ -108,7 +112,23 @@ def setup(ctx):
     reach.start()
 
 
+def _suite_mode():
+    """True under `python -m pvmon.suite` (no check function drains the anomalies: the postcondition raises)."""
+    import sys
+    spec = getattr(sys.modules.get('__main__'), '__spec__', None)
+    return bool(spec and spec.name == 'pvmon.suite')
+
+
 def _post_decay_time(sample, target, t):
+    n = len(_state['anomalies'])
+    _post_decay_time_conditions(sample, target, t)
+    if _state['suite'] and len(_state['anomalies']) > n:
+        an = _state['anomalies'][n:]
+        del _state['anomalies'][n:]
+        raise AssertionError('pvmon C15 postcondition of Sample.decay_time(%r): %r' % (target, an))
+
+
+def _post_decay_time_conditions(sample, target, t):
     """Postcondition of Sample.decay_time on the object's own state: a real t >= 0; when t > 0 the
     activities of the table, decayed from the smallest requested rest time to t, sum to the target
     within 0.1 %."""
@@ -183,7 +203,7 @@ def _pick_target(rng):
 
 def generate(ctx):
     rng = ctx.rng
-    nsamples = ctx.scale(150, 1500)
+    nsamples = ctx.scale(400, 1500)
     for _ in range(nsamples):
         s = _random_sample(rng)
         for _l in range(4):
@@ -193,6 +213,15 @@ def generate(ctx):
                 c['rest'] = lst
                 c['target'] = _pick_target(rng)
                 yield 'decay', c
+        # acceptance probes: the root finder's answer is degraded by 0.5 % (must be refused with RuntimeError,
+        # never returned) and by 0.02 % (inside the band); targets well below A(0), rest_times=[0]
+        for off in (0.005, 0.0002):
+            c = dict(s)
+            c['rest'] = [0]
+            c['target'] = {'mode': 'rel', 'x': 10 ** rng.uniform(-6, -0.35)}
+            c['inject_offset'] = off
+            yield 'decay', c
+    # (acceptance probes ride along: see below)
     # exact boundary: single-product samples, target exactly A(0), one ulp above, one ulp below
     for _ in range(ctx.scale(20, 100)):
         z, a = rng.choice(_state['single'])
@@ -276,7 +305,13 @@ def check_decay(ctx, case):
     if _state['cache'][0] == key:
         s0 = _state['cache'][1]
     else:
-        s0 = _activate(case, [0])
+        try:
+            s0 = _activate(case, [0])
+        except Exception as exc:
+            # the activation itself failed: that is property C14's subject, decay_time was never reached
+            ctx.count('skipped.activation_raised_' + type(exc).__name__)
+            _state['cache'] = (None, None)
+            return
         _state['cache'] = (key, s0)
     prods = []
     for q, vals in s0.activity.items():
@@ -316,7 +351,11 @@ def check_decay(ctx, case):
         return
 
     rest = case['rest']
-    s = _activate(case, rest)
+    try:
+        s = _activate(case, rest)
+    except Exception as exc:
+        ctx.count('skipped.activation_raised_' + type(exc).__name__)
+        return
     i0 = min(range(len(rest)), key=rest.__getitem__)
     To = rest[i0]
     entries = [v[i0] for v in s.activity.values()]
@@ -327,11 +366,28 @@ def check_decay(ctx, case):
         'overflow_ratio': max([To * LN2 / th for _, th in prods] or [0]),
         'mode': tm['mode'], 'nproducts': len(prods), 'A0_minus_target': A0 - target,
     }
-    out = _call(s, target)
+    off = case.get('inject_offset')
+    if off:
+        feats['injected_offset'] = off
+
+        def degrade(xr, f):
+            slope = -math.fsum(a * LN2 / th * 2.0 ** (-xr / th) for a, th in prods)
+            if not slope < 0:
+                return xr, f(xr)
+            x2 = xr + off * target / slope      # left of the root: total activity above the target by ~off
+            ctx.count('acceptance.injected')
+            return x2, f(x2)
+        _state['inject'] = degrade
+    try:
+        out = _call(s, target)
+    finally:
+        _state['inject'] = None
     anomalies = _state['anomalies']
     verdict, info = _judge(out, target, A0, total, exact_single)
     ctx.evaluated(what='decay_time-vs-oracle')
     ctx.count('outcome.' + verdict)
+    if off:
+        ctx.count('acceptance.offset_%g.%s' % (off, verdict))
     if info.get('relerr') is not None and verdict == 'accepted':
         ctx.observe('accepted.relerr_to_target', info['relerr'])
     if info.get('unjudged_near_boundary'):
@@ -391,6 +447,7 @@ def finish(ctx):
     reach.export(ctx)
     for k, v in _state['post'].items():
         ctx.count('postcondition.decay_time.' + k, v)
+    ctx.count('contract.decay_time.postcondition_evaluations', _state['post']['returned'])
     fr = _state['fr']
     ctx.count('find_root.calls', fr['calls'])
     ctx.count('find_root.iterations', fr['iterations'])
@@ -402,6 +459,8 @@ def finish(ctx):
     ctx.require('reach.decay_time.acceptance_test', 1, 'the 0.1% acceptance test must be reached')
     ctx.require('lists.nonzero_minimum', 1, 'rest-time lists without 0 must be exercised')
     ctx.require('outcome.accepted', 1, 'at least one returned time must have been judged correct')
+    ctx.require('acceptance.injected', 1, 'the acceptance probe must have degraded at least one root')
+    ctx.require('reach.decay_time.raise_RuntimeError', 1, 'the RuntimeError refusal must be reached')
 
 
 # ----------------------------------------------------------------------------
@@ -422,7 +481,7 @@ def classify(rec):
             if (d.get('overflow_ratio') or 0) > 700 and not d.get('via_find_root'):
                 # exp(La*To) while reconstructing the activity at removal from the smallest rest time
                 return 'c15.rest-time-overflow'
-            if d.get('via_find_root') and sib == 'accepted':
+            if d.get('via_find_root') and sib in ('accepted', 'runtime-error'):
                 # Newton driven the wrong way by the (To-1) factor until exp() overflows
                 return 'c15.derivative-rest-time-factor'
             return None
